@@ -38,8 +38,7 @@ def install_call_variants(mod):
     """For property modules that opt in (CALL_VARIANTS = True) the harness's own calls of iso8583.loads / iso8583.dumps
     (made through the module attribute; the library's internal calls are untouched) are varied, deterministically from
     the argument's content:
-      * loads: the message is handed over as bytearray or memoryview for one call in three (the unchanged code reads all
-        three alike), and for one call in four an EARLIER CALL THAT FAILS is made first - the same header and bitmap with
+      * loads: the message is handed over as a bytearray for one call in three (the unchanged code reads it like bytes), and for one call in four an EARLIER CALL THAT FAILS is made first - the same header and bitmap with
         the data cut in half, or with the data overwritten by 0xFF - so that whatever a failed decode leaves behind (a half
         filled memo table for that bitmap, a shared buffer) is in place when the real call is made;
       * dumps: for one call in four a failing call is made first (the same message plus a value no prefix can count).
@@ -62,9 +61,7 @@ def install_call_variants(mod):
                 except Exception:
                     pass
             if h % 3 == 1:
-                b = bytearray(b)
-            elif h % 3 == 2:
-                b = memoryview(bytes(b))
+                b = bytearray(b)            # (memoryview was tried too and dropped: "byte string" does not promise it)
             if h % 5 == 2 and not a and set(k) <= {'encoding', 'iso_config', 'hex_bitmap'}:
                 # the documented parameter order, by position: loads(b, encoding, iso_config, hex_bitmap)
                 return real_loads(b, k.get('encoding'), k.get('iso_config'), k.get('hex_bitmap', False))
